@@ -206,7 +206,9 @@ def certify(inst, x, reported_cost, active=None, tol_rel=1e-3, feas_tol=1e-6, pr
         if abs(F(reported_cost) - cost) > F(1, 10**9) * (1 + abs(cost)):
             out.update(verdict="violated", reason="reported cost differs from the cost of the reported positions", reported=float(reported_cost))
             return out
-    tol = F(tol_rel) * (1 + cost)
+    # absolute tolerance (the solver stops at multipliers >= -1e-4 and cost changes <= 1e-4) plus the float
+    # noise of a cost dominated by heavy variables (positions carry ~1e-16 relative error, cost ~1e-15*cost)
+    tol = F(tol_rel) * (1 + cost * F(1, 10**6))
     best_lb = None
     method = None
     if active is not None:
